@@ -35,6 +35,8 @@ type KnownFinding struct {
 	What       string `json:"what"`
 	Status     string `json:"status,omitempty"` // "open" (default) or "fixed"
 	Commit     string `json:"commit,omitempty"`
+	Function   string `json:"function,omitempty"` // open findings: the function whose obligation fails
+	Except     string `json:"except,omitempty"`   // open findings: Go predicate over the function's parameters describing the failing inputs
 }
 
 type violation struct {
@@ -89,6 +91,7 @@ func cmdCheck(args []string) {
 	if pkg == "" {
 		pkg = "./pfcpiface"
 	}
+	knownFindingsFile = filepath.Join(*verifDir, "KNOWN_FINDINGS.json")
 	P, err := loadProgram(*repo, pkg, *ext)
 	if err != nil {
 		// The tree does not load (does not compile with the tag, or a contract no longer type-checks
@@ -221,6 +224,9 @@ func cmdCheck(args []string) {
 	knownSeen := map[string]bool{}
 	for _, v := range viols {
 		kf := matchKnown(known, *prop, v.Obl.Name)
+		if kf != nil && kf.Except != "" && v.Obl.Status != "known" {
+			kf = nil // the obligation also fails outside the recorded inputs: a different violation
+		}
 		if kf != nil {
 			if !knownSeen[kf.Obligation] {
 				knownSeen[kf.Obligation] = true
